@@ -506,6 +506,8 @@ pub fn worker(w: &mut Worker) {
     {
         let mut chars = wide_chars();
         chars.extend((0u32..0x20).chain([0x7f, 0x80, 0x9f, 0xd7ff, 0xe000, 0xfffd, 0xffff, 0x10000, 0x10ffff]).filter_map(char::from_u32));
+        // ... and the characters that do not show (byte order mark, zero-width characters, controls)
+        chars.extend(invisible_chars());
         chars.sort();
         chars.dedup();
         for c in chars {
@@ -659,7 +661,7 @@ pub fn crash_sig(_case: &Value, kind: &str) -> String {
     kind.to_string()
 }
 
-pub const RULE: &str = "texts: every string up to the length bound over {a e-acute emoji NUL LF SP = U+FEFF} through string_to_bytes/bytes_to_string and base64_encode/base64_decode (bytes compared in the handle table as well); integers: every n in 0..=bound plus 2^k-1,2^k,2^k+1 for k<=64 through hex_encode/hex_decode; JSON: every document of the stated depth with width<=2 over leaves {\"a\",\"a.b\",\"\",1,1.5,true,null} plus 14 number leaves at the edges of the i64/u64/f64 ranges (numbers must keep their exact decimal value) and keys {k,a.b,'a b',x[0]} (depth 3 over a covering subset of depth-2 shapes) through json_parse --collection / json_encode --collection compared (as JSON values) with the documented normalisation, then release -r must free every handle; properties: every 1-entry map with key length 1..2 and value length 0..bound over {a SP = : # ! \\\\ e-acute LF}, every 2-entry map over length-1 keys/values plus a few non-BMP entries, through map_to_properties/map_load_properties. Non-trivial: non-ASCII or NUL text, n>255, container documents, every properties case. states = distinct (kind, size class) outcomes; transitions = round trips executed. Scale cases: texts of 4095/65537 (thorough 1000003) bytes, plain and with a two-byte character across the middle, through the bytes and base64 round trips (and the length of the base64 text); JSON arrays and objects of 10/300 (thorough 30000) members and arrays nested 10/60/101/127 deep (127 is the deepest document the parser accepts) through json_parse --collection / json_encode --collection; maps of as many entries through the properties text. Documents in sequence: 2..6 documents parsed into one variable, their handles kept in an array / a map / other variables, then encoded from there. The wide one-character alphabet and every control character as a text, a JSON string / key / item, a properties key and value. Wrong kind in between: 12 commands of another kind applied to the handle between the two halves of 6 round trips (bytes, base64, JSON array, JSON object, properties, set): they report an error and the second half gives back the original Container chains: every depth up to 120 (quick: 1..8, the neighbourhoods of the multiples of 8 and 28..40), objects and arrays in turn, the keys on the way down in rotation (20 rotations) from a pool of 20 keys that read like path syntax (~ ~0 ~1 / a/b ~01 ~10, the empty key, 0 1 - a.b [0] .. $ # and a backslash), every container with a sibling leaf.";
+pub const RULE: &str = "texts: every string up to the length bound over {a e-acute emoji NUL LF SP = U+FEFF} through string_to_bytes/bytes_to_string and base64_encode/base64_decode (bytes compared in the handle table as well); integers: every n in 0..=bound plus 2^k-1,2^k,2^k+1 for k<=64 through hex_encode/hex_decode; JSON: every document of the stated depth with width<=2 over leaves {\"a\",\"a.b\",\"\",1,1.5,true,null} plus 14 number leaves at the edges of the i64/u64/f64 ranges (numbers must keep their exact decimal value) and keys {k,a.b,'a b',x[0]} (depth 3 over a covering subset of depth-2 shapes) through json_parse --collection / json_encode --collection compared (as JSON values) with the documented normalisation, then release -r must free every handle; properties: every 1-entry map with key length 1..2 and value length 0..bound over {a SP = : # ! \\\\ e-acute LF}, every 2-entry map over length-1 keys/values plus a few non-BMP entries, through map_to_properties/map_load_properties. Non-trivial: non-ASCII or NUL text, n>255, container documents, every properties case. states = distinct (kind, size class) outcomes; transitions = round trips executed. Scale cases: texts of 4095/65537 (thorough 1000003) bytes, plain and with a two-byte character across the middle, through the bytes and base64 round trips (and the length of the base64 text); JSON arrays and objects of 10/300 (thorough 30000) members and arrays nested 10/60/101/127 deep (127 is the deepest document the parser accepts) through json_parse --collection / json_encode --collection; maps of as many entries through the properties text. Documents in sequence: 2..6 documents parsed into one variable, their handles kept in an array / a map / other variables, then encoded from there. The wide one-character alphabet, every control character and the characters that do not show (byte order mark, zero-width characters, directional marks, C1 controls) as a text, a JSON string / key / item, a properties key and value. Wrong kind in between: 12 commands of another kind applied to the handle between the two halves of 6 round trips (bytes, base64, JSON array, JSON object, properties, set): they report an error and the second half gives back the original Container chains: every depth up to 120 (quick: 1..8, the neighbourhoods of the multiples of 8 and 28..40), objects and arrays in turn, the keys on the way down in rotation (20 rotations) from a pool of 20 keys that read like path syntax (~ ~0 ~1 / a/b ~01 ~10, the empty key, 0 1 - a.b [0] .. $ # and a backslash), every container with a sibling leaf.";
 pub const ASSUMPTIONS: &[&str] = &["values are handed to the commands as already-bound arguments (no '$' or '%' in the alphabets)", "JSON equality is serde_json value equality (object key order is not significant)"];
 pub const EXHAUSTIVE: bool = true;
 pub const WALL_CAP_S: (u64, u64) = (50, 1500);
